@@ -411,7 +411,8 @@ func runSecrecy(e *env) {
 				np := 1 + (priv % 2)
 				line = fmt.Sprintf("chpriv %s %s", e.ptok(priv), e.ptok(np))
 			case x < 63:
-				np := []int{0, 3}[r.Intn(2)]
+				// also the refused candidates: the current private passphrase, the other private one
+				np := []int{0, 3, priv, 1 + (priv % 2), 0, 3}[r.Intn(6)]
 				line = fmt.Sprintf("chpub %s %s", e.ptok(e.pub), e.ptok(np))
 			case x < 73:
 				line = fmt.Sprintf("export %d %s", ids[r.Intn(len(ids))], e.ptok(priv))
